@@ -390,3 +390,15 @@ func VerifH_C18_run_close() {
 	_, err = s.Connect(context.Background(), "10.0.0.9:1")
 	vapi.Assert("run.connect-after-close-rejected", err != nil)
 }
+
+//verif:harness prop=C18 tier=thorough replay=interp go=sched preempt=3 require=quiesced,rejected-by-subnet,back-pressure bounds="as VerifH_C18_inflight with ≤3 delays"
+func VerifH_C18_inflight_deep() { VerifH_C18_inflight() }
+
+//verif:harness prop=C18 tier=thorough replay=interp go=sched preempt=4 require=stopped bounds="as VerifH_C18_shutdown with ≤4 delays"
+func VerifH_C18_shutdown_deep() { VerifH_C18_shutdown() }
+
+//verif:harness prop=C18 tier=thorough replay=interp go=sched preempt=3 require=connected,refused bounds="as VerifH_C18_inbound_cap with ≤3 delays"
+func VerifH_C18_inbound_cap_deep() { VerifH_C18_inbound_cap() }
+
+//verif:harness prop=C18 tier=thorough replay=interp go=sched preempt=4 require=closed bounds="as VerifH_C18_run_close with ≤4 delays"
+func VerifH_C18_run_close_deep() { VerifH_C18_run_close() }
